@@ -5,7 +5,7 @@ def interp(specs, t, temp, calls):
     """run a list of algo specs as a stack; returns the stack's result"""
     failed = False
     for s in specs:
-        ra = bool(s.get("run_always")) or s.get("a") == "run_always"
+        ra = (bool(s.get("run_always")) and s.get("run_always") != "off") or s.get("a") == "run_always"  # ("off": the marker attribute exists, set to False)
         if failed and not ra:
             continue
         r = ev(s, t, temp, calls)
@@ -100,7 +100,7 @@ def judge_flow(sim, plan):
 
 
 def _has_ra(s):
-    if s.get("run_always") or s.get("a") == "run_always":
+    if (s.get("run_always") and s.get("run_always") != "off") or s.get("a") == "run_always":
         return True
     for k in ("algos",):
         for x in s.get(k, []):
